@@ -14,7 +14,7 @@ from typing import Dict, List, Optional, Set, Tuple
 
 from ..astutil import Defs
 from ..cfg import cfg_of
-from ..core import AnalysisError, FuncInfo, attr_chain, kwarg, short, walk_no_nested, walk_stmts
+from ..core import AnalysisError, FuncInfo, attr_chain, cshort, kwarg, short, walk_no_nested, walk_stmts
 from ..sites import Resolver, comp_of
 
 ARITH = {
@@ -192,6 +192,31 @@ OPERAND_ZIP_FUNCS = {
 }
 
 
+def _one_per_column(f: FuncInfo, c: ast.Call) -> bool:
+    """zip(SEQ, local) where the local is tuple/list(<expr> for v in SEQ): same length by construction."""
+    if len(c.args) != 2 or not isinstance(c.args[1], ast.Name):
+        return False
+    from ..core import Program
+    return False
+
+
+def _one_per_column_at(prog, f: FuncInfo, c: ast.Call) -> bool:
+    if len(c.args) != 2 or not isinstance(c.args[1], ast.Name):
+        return False
+    res = Resolver(prog, f)
+    defs = res.resolve(c.args[1], c)
+    if not defs:
+        return False
+    for v in defs:
+        if isinstance(v, str):
+            return False
+        cm = comp_of(v)
+        if not (cm is not None and len(cm.generators) == 1 and not cm.generators[0].ifs
+                and short(cm.generators[0].iter) == short(c.args[0])):
+            return False
+    return True
+
+
 def _zips(ctx) -> None:
     prog = ctx.prog
     other = 0
@@ -217,6 +242,8 @@ def _zips(ctx) -> None:
                 ok, why = True, "dominated by a raising length comparison"
             elif (q, args) in ZIP_WHITELIST:
                 ok, why = True, "table: " + ZIP_WHITELIST[(q, args)]
+            elif _one_per_column_at(prog, f, c):
+                ok, why = True, "second operand is built one per column of the first"
             ctx.ob("b.no-truncation", f, f"zip:{k}:{args}", ok, f"zip({args}): {why}", c,
                    message=f"{q}: zip({args}) silently truncates to the shorter operand: it is neither strict=True nor preceded by a "
                            f"raising length comparison of these operands")
@@ -328,7 +355,7 @@ def _table(ctx) -> None:
     other, opf = f.params[1], f.params[2]
     problems = []
     scal = [s for s in walk_stmts(f.body) if isinstance(s, ast.Assign) and isinstance(s.value, ast.Call) and short(s.value.func) == "tuple"]
-    if not (scal and short(scal[0].value.args[0]) == f"({opf}(col, {other}) for col in self.cols())"):
+    if not (scal and cshort(scal[0].value.args[0]) == f"({opf}(_0, {other}) for _0 in self.cols())"):
         problems.append(f"scalar case is `{short(scal[0].value, 70) if scal else '?'}`, expected {opf}(col, {other}) for col in self.cols()")
     ctx.ob("d.table-arithmetic", f, "scalar", not problems, "table ⊙ scalar maps the vector operation over all columns", f.node,
            message="; ".join(problems))
@@ -399,9 +426,10 @@ def _wrappers(ctx) -> None:
         d = Defs(f)
         apps = [n for n in walk_no_nested(lp) if isinstance(n, ast.Call) and isinstance(n.func, ast.Attribute) and n.func.attr == "append"]
         texts = sorted(short(a.args[0]) for a in apps)
-        mname = [v for v, _, _ in d.assigns.get("method", []) if v is not None]
-        want_call = f"getattr({x}, method)(*{va.arg}, **{kw.arg})"
-        if texts != sorted(["None", want_call]) or not (mname and short(mname[0]) == "self._method_name"):
+        mvars = [n for n, lst in d.assigns.items() if any(v is not None and short(v) == "self._method_name" for v, _, _ in lst)]
+        mv = mvars[0] if mvars else "self._method_name"
+        want_call = f"getattr({x}, {mv})(*{va.arg}, **{kw.arg})"
+        if texts != sorted(["None", want_call]):
             problems.append(f"appends {texts}; expected None for a None element and `{want_call}` (the method looked up ON THE ELEMENT, "
                             f"by the proxied name) otherwise")
         none_if = [s for s in lp.body if isinstance(s, ast.If) and short(s.test) == f"{x} is None"]
@@ -417,9 +445,9 @@ def _wrappers(ctx) -> None:
     f = prog.func("vector.Vector.__getattr__")
     nm = f.params[1]
     rets = [s for s in walk_stmts(f.body) if isinstance(s, ast.Return)]
-    texts = [short(r.value, 200) for r in rets]
+    texts = [cshort(r.value) for r in rets]
     want_proxy = f"MethodProxy(self, {nm})"
-    want_prop = f"Vector(tuple((getattr(x, {nm}) if x is not None else None for x in self._underlying)))"
+    want_prop = f"Vector(tuple((getattr(_0, {nm}) if _0 is not None else None for _0 in self._underlying)))"
     ok = want_proxy in texts and want_prop in texts and len(texts) == 2
     ctx.ob("e.wrappers", f, "getattr", ok, "callable class attribute -> MethodProxy(self, name); property -> per-element getattr", f.node,
            message=f"Vector.__getattr__ returns {texts}; expected `{want_proxy}` for methods and `{want_prop}` for properties")
@@ -429,9 +457,9 @@ def _wrappers(ctx) -> None:
     problems = []
     if not rets or short(rets[-1].value) != f"super().__add__({f.params[1]})":
         problems.append(f"falls back to `{short(rets[-1].value) if rets else '?'}`, expected super().__add__(other)")
-    days = [short(r.value, 300) for r in rets[:-1]]
+    days = [cshort(r.value) for r in rets[:-1]]
     for t in days:
-        if "date.fromordinal(s.toordinal() + " not in t or "is not None" not in t:
+        if "date.fromordinal(_0.toordinal() + " not in t or "is not None" not in t:
             problems.append(f"day arithmetic `{t[:70]}` is not date.fromordinal(s.toordinal() + n) with None kept")
     ctx.ob("e.wrappers", f, "date-add", not problems, "dates + int adds days; anything else uses the generic kernel", f.node,
            message="_Date.__add__: " + "; ".join(problems))
